@@ -770,8 +770,9 @@ def check_incomplete(ctx):
 
 PARTIAL = [
     {"theorem": "QM.C08.qmpt_walk_eps_eq_born / qmptCircuitWalkEps_eq",
-     "missing": "proved for unclipped outcomes and proper conditional distributions; the clipping branch (boundary objects) "
-                "and the re-normalisations inside MultinomialDistribution (C16) are covered by the `circuiteps` correspondence only"},
+     "missing": "proved for unclipped outcomes and for clipped outcomes of Born value exactly 0 (boundary objects), with proper "
+                "conditional distributions; outcomes with 0 < p_x <= eps_zero and the re-normalisations inside "
+                "MultinomialDistribution (C16) are covered by the `circuiteps` correspondence only"},
 ]
 
 
